@@ -326,6 +326,67 @@ k_setup(void) {
     coap_delete_resource(S.sc, r);
 }
 
+/* K11: a raw peer uploads a body with Block1 but without Size1 (the re-assembly buffer has to grow with every block) */
+static void
+k_rawblock1(void) {
+  coap_address_t pa;
+  ns_addr(&pa, 35, 5000);
+  for (int i = 0; i < 3; i++) {
+    struct w_buf w;
+    uint8_t tok[2] = {0x62, (uint8_t)i};
+    int m = i < 2;
+    w_begin(&w, 0, 3, (uint16_t)(0x4500 + i), tok, 2);
+    w_opt_add(&w, 11, "put", 3);
+    w_opt_uint(&w, 27, (unsigned)(i << 4 | m << 3 | 0));
+    uint8_t pl[16];
+    for (int k = 0; k < 16; k++)
+      pl[k] = cs_pat((size_t)(i * 16 + k));
+    w_payload(&w, pl, m ? 16 : 8);
+    ns_inject_now(&pa, &S.srv, w.b, w.n);
+    ns_prepare_all();
+    while (ns_inflight_count())
+      ns_drop(0);
+  }
+  cs_pump(&S, 300, 400000); /* partial bodies expire */
+}
+/* K12: the client downloads a body from a raw server that sends Block2 without Size2 */
+static coap_address_t rawsrv;
+static size_t k12_len;
+static int k12_ok;
+static void
+k12_raw_rx(const ns_dgram_t *d) {
+  struct w_msg m;
+  if (ns_addr_host(&d->dst) != ns_addr_host(&rawsrv) || !w_parse(d->data, d->len, &m) || m.type != 0 || m.code != 1)
+    return;
+  const struct w_opt *b2 = w_find(&m, 23);
+  unsigned num = b2 ? w_uint(b2) >> 4 : 0;
+  if (num > 2)
+    return;
+  struct w_buf w;
+  w_begin(&w, 2, 0x45, m.mid, m.token, m.tkl);
+  w_opt_uint(&w, 23, num << 4 | (num < 2 ? 8u : 0u) | 0);
+  uint8_t pl[16];
+  for (int k = 0; k < 16; k++)
+    pl[k] = cs_pat(num * 16 + (size_t)k);
+  w_payload(&w, pl, num < 2 ? 16 : 8);
+  ns_inject(&d->dst, &d->src, w.b, w.n);
+}
+static void
+k_rawblock2(void) {
+  ns_addr(&rawsrv, 36, 5683);
+  ns_raw_rx = k12_raw_rx;
+  coap_session_t *s = coap_new_client_session(S.cc, NULL, &rawsrv, COAP_PROTO_UDP);
+  if (!s)
+    return;
+  coap_pdu_t *p = cs_request(&S, s, 1, COAP_REQUEST_CODE_GET, "big", 0x61);
+  if (p)
+    coap_send(s, p);
+  cs_pump(&S, 600, 200000);
+  k12_len = S.last_len;
+  k12_ok = S.body_ok;
+  coap_session_release(s);
+}
+
 typedef void (*scn_fn)(void);
 static struct {
   const char *name;
@@ -333,7 +394,7 @@ static struct {
   int setup_injected; /* allocation failures also during context / endpoint / session / resource set-up */
 } K[] = {{"K1-get", k_get, 0},       {"K2-async", k_async, 0}, {"K3-block1", k_block1, 0}, {"K4-block2", k_block2, 0},
          {"K5-observe", k_observe, 0}, {"K7-uri", k_uri, 0},     {"K8-tcp", k_tcp, 0},       {"K9-ws", k_ws, 0},
-         {"K10-setup", k_setup, 1}};
+         {"K10-setup", k_setup, 1},   {"K11-rawblock1-nosize", k_rawblock1, 0}, {"K12-rawblock2-nosize", k_rawblock2, 0}};
 #define NK ((int)(sizeof K / sizeof K[0]))
 
 static void
@@ -390,6 +451,12 @@ run(void *arg) {
     case 4:
       good = S.notifications >= 3;
       break;
+    case 9:
+      good = S.srv_put_bytes == 40 && S.srv_put_ok;
+      break;
+    case 10:
+      good = k12_len == 40 && k12_ok;
+      break;
     default:
       break;
     }
@@ -413,14 +480,15 @@ main(int argc, char **argv) {
   vx_main_init(argc, argv, "C18");
   int T = vx_is_thorough();
   load_syms();
-  static struct cfg cfgs[32];
+  static struct cfg cfgs[48];
   int n = 0;
   for (int k = 0; k < NK; k++) {
     cfgs[n].k = k;
     cfgs[n].bound = 1;
     snprintf(cfgs[n].name, sizeof cfgs[n].name, "%s", K[k].name);
     n++;
-    if (T && (k == 0 || k == 2 || k == 3 || k == 4 || k == 5)) {
+    /* pairs of failing allocations: everywhere in thorough; in quick for the request/response, block-wise and observe scenarios */
+    if (T || k == 0 || k == 2 || k == 3 || k == 4 || k == 9 || k == 10) {
       cfgs[n].k = k;
       cfgs[n].bound = 2;
       snprintf(cfgs[n].name, sizeof cfgs[n].name, "%s", K[k].name);
@@ -428,12 +496,12 @@ main(int argc, char **argv) {
     }
   }
   /* scenario names must be unique for replay: append the bound */
-  static char names[32][80];
+  static char names[48][80];
   for (int i = 0; i < n; i++)
     snprintf(names[i], sizeof names[i], "c18:%s:B=%d", cfgs[i].name, cfgs[i].bound);
   vx_ev_rule("catalogue of scenarios (request/response, async separate response, Block1, Block2, observe register+notify+cancel, URI/optlist "
-             "helpers + .well-known/core, TCP session with CSM, WebSocket upgrade, set-up/tear-down extras) on real client+server contexts; every "
-             "call of coap_malloc_type / coap_realloc_type is a choice point: bound 1 = each single index k fails, bound 2 (thorough) = every pair; "
+             "helpers + .well-known/core, TCP session with CSM, WebSocket upgrade, set-up/tear-down extras, Block1 upload from / Block2 download from a raw peer that sends no Size1 / Size2) on real client+server contexts; every "
+             "call of coap_malloc_type / coap_realloc_type is a choice point: bound 1 = each single index k fails, bound 2 = every pair (quick: K1, K3, K4, K5, K11, K12; thorough: every scenario); "
              "non-trivial = a failure was injected; distinct = distinct observation logs (allocation index + outcome counters)");
   vx_ev_assumption("only allocations through libcoap's funnel fail; GnuTLS / uthash raw malloc are outside (as the property's anchor says)");
   vx_ev_assumption("after the faulted scenario the applications continue with memory available: canary = GET /r on a fresh UDP session");
@@ -444,8 +512,8 @@ main(int argc, char **argv) {
     fprintf(stderr, "replay file does not match any scenario\n");
     return 2;
   }
-  struct vx_config vcs[32];
-  void *args[32];
+  struct vx_config vcs[48];
+  void *args[48];
   for (int i = 0; i < n; i++) {
     vcs[i] = (struct vx_config){.scenario = names[i], .bound = cfgs[i].bound, .leakcheck = 1, .exec_timeout_s = 30};
     args[i] = &cfgs[i];
